@@ -208,6 +208,7 @@ func checkC02(ctx *Ctx, r *Report, tier string) {
 	checkInverses(ctx, r)
 	checkVoxelLattice(ctx, r)
 	checkSlice(ctx, r)
+	checkRotateToVector(ctx, r)
 	checkLoftMix(ctx, r, "M10")
 	checkPolyKernel(ctx, r, "M11")
 	checkOperandListOwned(ctx, r)
@@ -1711,4 +1712,81 @@ func checkOperandListOwned(ctx *Ctx, r *Report) {
 	}
 	_ = n
 	r.floor("M12", 2)
+}
+
+// checkRotateToVector (M13): RotateToVector(a, b) is the rotation that takes the direction of a to
+// the direction of b, for vectors of any length: the special cases (same direction, opposite
+// direction) are decided on the unit vectors, like the general formula - which divides by
+// 1 + â·b̂ and is singular exactly for opposite directions. If the vectors are normalised only
+// after the special cases have been tested, opposite vectors of different length reach the
+// singularity and every entry of the matrix is NaN (an arrow pointing straight down, Orient3D
+// with {0,0,-10}). The closed form is evaluated on pairs of different lengths.
+func checkRotateToVector(ctx *Ctx, r *Report) {
+	fn := ctx.ssaFunc("sdf", "RotateToVector")
+	if fn == nil || len(fn.Params) != 2 {
+		r.undecided("M13", "RotateToVector", 0, "not found")
+		return
+	}
+	savedCap := termCap
+	termCap = 400000
+	ev := newEval(ctx)
+	res, _ := ev.evalRoot(fn)
+	termCap = savedCap
+	m := map[string]*Term{}
+	leafTerms("", res, m)
+	if len(m) != 16 {
+		r.undecided("M13", "RotateToVector", fn.Pos(), fmt.Sprintf("the result has %d scalar entries, expected 16", len(m)))
+		return
+	}
+	an, bn := paramName(fn, 0), paramName(fn, 1)
+	bad := ""
+	n := 0
+	for _, c := range [][2][3]float64{
+		{{0, 0, 1}, {0, 0, -10}}, {{0, 0, 3}, {0, 0, -1}}, {{1, 2, 2}, {-2, -4, -4}}, // opposite, different lengths
+		{{0, 0, 1}, {0, 0, 5}}, {{2, 0, 0}, {7, 0, 0}}, // same direction, different lengths
+		{{1, 0, 0}, {0, 3, 0}}, {{1, 2, 3}, {-3, 1, 2}}, {{0, 0, 2}, {1, 1, 0}}, // generic
+	} {
+		a, b := c[0], c[1]
+		env := map[string]float64{an + ".X": a[0], an + ".Y": a[1], an + ".Z": a[2], bn + ".X": b[0], bn + ".Y": b[1], bn + ".Z": b[2]}
+		var mat [16]float64
+		okE := true
+		for i := 0; i < 16; i++ {
+			t := m[fmt.Sprintf("[%d]", i)]
+			if t == nil {
+				okE = false
+				break
+			}
+			v, ok := evalFloat(t, env)
+			if !ok {
+				okE = false
+				break
+			}
+			mat[i] = v
+		}
+		if !okE {
+			bad = fmt.Sprintf(" a=%v b=%v: the matrix cannot be evaluated (a division by zero, or not a closed form of the two vectors);", a, b)
+			break
+		}
+		n++
+		la := math.Sqrt(a[0]*a[0] + a[1]*a[1] + a[2]*a[2])
+		lb := math.Sqrt(b[0]*b[0] + b[1]*b[1] + b[2]*b[2])
+		opposite := (a[0]/la+b[0]/lb)*(a[0]/la+b[0]/lb)+(a[1]/la+b[1]/lb)*(a[1]/la+b[1]/lb)+(a[2]/la+b[2]/lb)*(a[2]/la+b[2]/lb) < 1e-20
+		off := 0.0
+		finite := true
+		for i := 0; i < 3; i++ {
+			got := (mat[i*4+0]*a[0] + mat[i*4+1]*a[1] + mat[i*4+2]*a[2]) / la
+			if math.IsNaN(got) || math.IsInf(got, 0) {
+				finite = false
+			}
+			off = math.Max(off, math.Abs(got-b[i]/lb))
+		}
+		switch {
+		case !finite:
+			bad += fmt.Sprintf(" a=%v b=%v: the matrix has non-finite entries;", a, b)
+		case !opposite && off > 1e-9:
+			bad += fmt.Sprintf(" a=%v b=%v: the image of â is %g away from b̂;", a, b, off)
+		}
+	}
+	r.check("M13", "RotateToVector|directions-of-any-length", fn.Pos(), bad == "" && n > 0, fmt.Sprintf("%d pairs (opposite, same and generic directions, different lengths): finite, and the image of â is b̂ except for the documented choice at opposite directions;%s", n, bad))
+	r.floor("M13", 1)
 }
